@@ -479,7 +479,8 @@ func isSubsequence(want, have []string) bool {
 
 func scenC07(r *Run, judged bool) {
 	t := r.W
-	tn := buildTown(r, TownOpts{Paged: t.Chance(1, 2), Markdown: true})
+	spine := t.Chance(1, 3)
+	tn := buildTown(r, TownOpts{Paged: t.Chance(1, 2), Markdown: true, Spine: spine})
 	r.S.PanicProp = "C07"
 	w, h := 70+t.Draw(60), 30+t.Draw(40)
 	u := newUISession(r, w, h)
@@ -518,6 +519,9 @@ func scenC07(r *Run, judged bool) {
 		}
 	} else {
 		startCmd, startArg = "open", g.openTarget()
+	}
+	if spine && t.Chance(2, 3) {
+		startCmd, startArg = "open", tn.Posts[3+t.Draw(3)].ID // a member of the spine: ancestors above, replies below
 	}
 	if startCmd == "feed" {
 		m.pages = []*mPage{m.feedPage(startArg)}
@@ -779,10 +783,15 @@ func burstAction(act []byte) bool {
 // keymap leaves open.
 func (g *keyGen) nextJudged(m *kmModel) []byte {
 	t := g.r.W
-	switch t.Weighted(9, 7, 4, 2, 4, 3, 2, 4, 3, 1, 2, 1, 4, 3, 3) {
+	switch t.Weighted(9, 7, 4, 2, 4, 3, 2, 4, 3, 1, 2, 1, 4, 3, 7) {
 	case 14:
 		// fast cursor keys (marker byte 0, never sent): see the session loop
 		b := []byte{0}
+		if t.Chance(1, 2) {
+			// up first (starts loading ancestors), then straight back down past the opened item
+			b = append(b, []byte([]string{"kjj", "kgjj", "kkjjj", "kjjj", "jkkk", "jgkk"}[t.Draw(6)])...)
+			return b
+		}
 		for k := 2 + t.Draw(4); k > 0; k-- {
 			b = append(b, "jjkkg"[t.Draw(5)])
 		}
